@@ -30,7 +30,7 @@ var intrinsicDocs = map[string]string{
 	"(*bytes.Buffer).WriteByte":          "bytes.Buffer.WriteByte(c): appends c, returns nil",
 	"(*bytes.Buffer).WriteString":        "bytes.Buffer.WriteString(s): appends the bytes of s, returns (len(s),nil)",
 	"(*bytes.Buffer).Reset":              "bytes.Buffer.Reset(): content becomes empty",
-	"(*bytes.Buffer).Len":                "bytes.Buffer.Len(): length of content",
+	"(*bytes.Buffer).Len":                "bytes.Buffer.Len(): length of content; a buffer holds fewer than 2^32 bytes (frames of 4 GiB or more are outside the model)",
 	"(*bytes.Buffer).Bytes":              "bytes.Buffer.Bytes(): slice aliasing the content (length Len())",
 	"errors.New":                         "errors.New(s): fresh non-nil error of dynamic type *errors.errorString with text s and no wrapped error",
 	"fmt.Errorf":                         "fmt.Errorf(f,args): fresh non-nil error; wraps the %w argument if the constant format has one; text is NUL-free if the format and every string/error/[]byte argument are",
@@ -38,12 +38,21 @@ var intrinsicDocs = map[string]string{
 }
 
 func bufGhost(st *State, name string, id *Term) *Term {
-	return Select(st.heapArr("#"+name, SInt), id)
+	v := Select(st.heapArr("#"+name, SInt), id)
+	if name == "blen" {
+		// trusted: a bytes.Buffer holds fewer than 2^32 bytes (frames of 4 GiB or more are outside the model)
+		st.assume(And(Le(Int(0), v), Lt(v, IntB(pow2[32]))))
+	}
+	return v
 }
 func setBufGhost(st *State, name string, id, v *Term) {
 	st.Heap["#"+name] = Store(st.heapArr("#"+name, SInt), id, v)
 	st.Dirty["H:#"+name] = true
 }
+
+// bufArr: the array id holding the content of the bytes.Buffer with address id
+// (a dedicated id next to the buffer's own address; never aliases a slice array).
+func bufArr(id *Term) *Term { return Sub(id, Int(32)) }
 
 func byteMem(st *State) *MemLog { return st.mem(memName(tByte, ""), SInt) }
 
@@ -143,7 +152,7 @@ func init() {
 		return Value{T: resT, L: []*Term{r}}
 	}
 	// bytes.Buffer: content lives in byte memory at array #barr[id], indices [0,#blen[id])
-	barr := func(st *State, id *Term) *Term { return bufGhost(st, "barr", id) }
+	barr := func(st *State, id *Term) *Term { return bufArr(id) }
 	intrinsics["(*bytes.Buffer).Write"] = func(ex *Exec, fr *Frame, st *State, site ssa.Instruction, args []Value, resT types.Type) Value {
 		id, p := args[0].L[0], args[1]
 		ln := bufGhost(st, "blen", id)
